@@ -121,3 +121,59 @@ func c03OnceMemberHistory(r *Run) {
 		}
 	}
 }
+
+// c03OnceHeadForms: where the v-once test of a chain head happens. (1) a head that also carries v-pre is not a chain member at all - its
+// directives are inert, it is written raw, ONCE, whatever its condition says, and the members after it are strays; (2) a component that is
+// included several times with a different flag each time: the head inside it is one element (one id along the include chain) and appears
+// at the first inclusion whose flag holds - not before, and only once.
+func c03OnceHeadForms(r *Run) {
+	rowsOf := []map[string]any{{"a": true}, {"a": false}}
+	tplPre := `<div v-for="row in rows"><p v-if="row.a" v-once v-pre>[A]</p><p v-else>[C]</p><i>[end]</i></div>`
+	comp := `<p v-if="flag" v-once>[A]</p><p v-else>[C]</p><i>[end]</i>`
+	for i := 0; i < 2*2*2; i++ {
+		idx := []int{i % 2, (i / 2) % 2, i / 4}
+		var rows []any
+		var wantPre, wantInc []string
+		done := false
+		page := ""
+		for n, k := range idx {
+			rows = append(rows, rowsOf[k])
+			if n == 0 {
+				wantPre = append(wantPre, "A")
+			}
+			wantPre = append(wantPre, "end")
+			if rowsOf[k]["a"] == true {
+				if !done {
+					wantInc = append(wantInc, "A")
+				}
+				done = true
+			} else {
+				wantInc = append(wantInc, "C")
+			}
+			wantInc = append(wantInc, "end")
+			page += fmt.Sprintf(`<template include="c.vuego" :flag="rows[%d].a"></template>`, n)
+		}
+		d := map[string]any{"rows": rows}
+		for _, form := range []struct {
+			name  string
+			files map[string]string
+			want  []string
+		}{
+			{"head-with-pre", map[string]string{"p.vuego": tplPre}, wantPre},
+			{"head-in-component-included-again", map[string]string{"p.vuego": page, "c.vuego": comp}, wantInc},
+		} {
+			res := renderPage(form.files, "p.vuego", d)
+			var got []string
+			for _, m := range c03MarkRe.FindAllStringSubmatch(res.Out, -1) {
+				got = append(got, m[1])
+			}
+			name := fmt.Sprintf("once-head-forms %s rows=%v", form.name, idx)
+			c := &Case{Name: name, Key: name, Input: map[string]any{"stream": "operand-history", "files": form.files, "rows": idx}, Impl: res.canon(), Oracle: &Verdict{OK: true}, Tags: []string{"stream:once-head-forms", "form:" + form.name}}
+			if res.Err != "" || strings.Join(got, ",") != strings.Join(form.want, ",") {
+				c.Oracle = &Verdict{OK: false, Class: "chain-selection:once-head-forms:" + form.name, Detail: fmt.Sprintf("rows %v: markers %v, expected %v (%s); files %v", idx, got, form.want, res.Err, form.files)}
+			}
+			r.Add(c)
+			pendingPages = append(pendingPages, pageCase("chain", form.files, nil, "p.vuego", d, "placement:once-head-forms"))
+		}
+	}
+}
